@@ -1204,13 +1204,13 @@ theorem C16_event_handled_once (grow : Nat → Nat) (as : List QAct) :
     let q := qrun grow {} as
     let s := srun {} as
     s.flushed.flatten ++ s.buf = EvQueue.accepted as ∧
-    (C16Queue.WindowsBounded 0 as → EvQueue.accepted as = C16Queue.frames as) ∧
+    (C16Queue.WindowsBounded false 0 as → EvQueue.accepted as = C16Queue.frames as) ∧
     (∀ p ∈ q.handled, s.flushed[p.1]? = some p.2) ∧
     ((q.handled.map (·.1)) ++ (q.pending.map (·.1))).Perm (List.range q.started) := by
   intro q s
   have hsim := C16Queue.sim_run grow as {} {} C16Queue.sim_init
   have hinv := C16Queue.sinv_run as {} C16Queue.sinv_init
-  refine ⟨?_, C16Queue.accepted_all as 0, ?_, ?_⟩
+  refine ⟨?_, C16Queue.accepted_all as false 0, ?_, ?_⟩
   · have := C16Queue.flushed_accepted as {}
     simpa [EvQueue.accepted] using this
   · intro p hp
@@ -1221,6 +1221,33 @@ theorem C16_event_handled_once (grow : Nat → Nat) (as : List QAct) :
       rw [← hsim.pending, List.map_map]; rfl
     rw [h1, h2, hsim.started, ← List.map_append]
     exact hinv.once
+
+open EvQueue in
+/-- `C16_event_stop_quiesces`. For EVERY schedule with a `stop` (Session.Close) anywhere in it — while frames are
+buffered, while handlers of earlier flushes are pending, followed by any frames, timer expiries and handler runs —:
+(1) no handler goroutine is started after `stop` has returned (the flushes are exactly those before it);
+(2) every handler of a flush BEFORE the stop, whenever it runs (before or after the stop), still sees exactly the batch
+of its flush (`C16_event_batches_intact` holds for schedules with `stop`);
+the frames buffered at the stop or debounced after it are never delivered (the session is closing). -/
+theorem C16_event_stop_quiesces (grow : Nat → Nat) (pre post : List QAct) :
+    (qrun grow {} (pre ++ .stop :: post)).started = (qrun grow {} pre).started ∧
+    (srun {} (pre ++ .stop :: post)).flushed = (srun {} pre).flushed ∧
+    (qrun grow {} (pre ++ .stop :: post)).handled = (srun {} (pre ++ .stop :: post)).handled := by
+  have h1 := C16Queue.sim_run grow (pre ++ .stop :: post) {} {} C16Queue.sim_init
+  have h0 := C16Queue.sim_run grow pre {} {} C16Queue.sim_init
+  have hsplit : srun {} (pre ++ .stop :: post) = srun (sstep (srun {} pre) .stop) post := by
+    simp [srun, List.foldl_append]
+  have hs := C16Queue.stopped_run post (sstep (srun {} pre) .stop) rfl
+  refine ⟨?_, ?_, h1.handled⟩
+  · rw [h1.started, h0.started, hsplit]; exact hs.1
+  · rw [hsplit]; exact hs.2
+
+open EvQueue in
+/-- non-vacuity: DOWN 1, flush 0, stop while handler 0 is pending, DOWN 2 and a timer expiry after the stop, handler 0 runs:
+one handler, it saw DOWN 1; DOWN 2 is never flushed -/
+example :
+    let q := qrun goGrow {} [.debounce (.status .down 1), .fire, .stop, .debounce (.status .down 2), .fire, .run 0, .run 1]
+    q.started = 1 ∧ q.handled = [(0, [.status .down 1])] ∧ q.pending = [] := by decide
 
 open EvQueue in
 /-- non-vacuity + the schedule of the missed class: DOWN 1 arrives, flush 0; DOWN 2 arrives BEFORE handler 0 has run;
@@ -1328,5 +1355,40 @@ example :
     let te : TokenMeta.TEnv := ⟨1, fun k => k == 1 || k == 2, fun _ => true⟩
     (([TokenMeta.SchemaOp.fill 1, .fill 2, .events [.other 1, .keyspace 3], .fill 2].foldl (TokenMeta.schemaOp env te {}) {}).cache) = [2] := by
   decide
+
+/-! ### control-connection failover: the control host goes down, the driver reconnects to ANOTHER host of the ring
+(setupConn: the new control host's system.local row goes through ring.addOrUpdate + pool / policy), REGISTERs again
+and refreshes; the events pushed meanwhile were never received -/
+
+/-- `C16_failover_follows_report`. For EVERY history `pre` before the control connection was lost, EVERY new control
+host `l0` (any host: known or not, any addresses) and EVERY report of that host: after the reconnect
+(`addInitial l0` = setupConn's addOrUpdate + startPoolFill) and the refresh that follows it
+(1) the view follows the new control host's report (all six clauses of the oracle `evfollows`), and
+(2) the host ids of the ring are exactly the accepted reported ids — which is ALSO what the ring would hold had any batch
+`missed` of node events (UP / DOWN / NEW_NODE / REMOVED_NODE / MOVED_NODE, pushed while no control connection existed and
+therefore lost) been delivered before the refresh: the gap is covered by the refresh. -/
+theorem C16_failover_follows_report (env : Env) (hloc : LocStable env) (pre : List VOp) (l0 : RHost)
+    (reported : List RHost) (missed : List Ev) :
+    let v := runV env View.empty (pre ++ [.addInitial l0])
+    (v.refresh env reported).followsViolations env v.ring.ids reported = [] ∧
+    (∀ id, id ∈ (v.refresh env reported).ring.ids ↔ ∃ h ∈ reported, env.filter h = false ∧ h.id = id) ∧
+    (∀ id, id ∈ ((v.handleBatch env missed).refresh env reported).ring.ids ↔ id ∈ (v.refresh env reported).ring.ids) := by
+  intro v
+  have ha : Agree env v := C16_view_invariant env hloc _
+  have ha' : Agree env (v.handleBatch env missed) := by
+    have heq : runV env View.empty (pre ++ [.addInitial l0] ++ [.batch missed]) = v.handleBatch env missed := by
+      simp [v, runV, List.foldl_append, applyV]
+    rw [← heq]
+    exact C16_view_invariant env hloc _
+  have h1 := (C16_view_follows_report env v ha reported).1
+  have h2 := (C16_view_follows_report env (v.handleBatch env missed) ha' reported).1
+  exact ⟨C16_follows_oracle_ok env v ha reported, h1, fun id => (h2 id).trans (h1 id).symm⟩
+
+/-- non-vacuity: control host 1 (address 7) and host 2 known; host 1 goes away, the driver lands on host 2, whose report is
+{2, 3}: host 3 joined during the gap (its NEW_NODE event was lost) — the ring holds 2 and 3 -/
+example :
+    let env : Env := ⟨fun _ => false, fun _ => true, false, false, false⟩
+    let v := runV env View.empty [.addInitial ⟨1, 1, 7, 7⟩, .addInitial ⟨2, 2, 8, 8⟩, .addInitial ⟨3, 2, 8, 8⟩]
+    (v.refresh env [⟨4, 2, 8, 8⟩, ⟨5, 3, 9, 9⟩]).ring.ids = [3, 2] := by decide
 
 end C16
